@@ -61,7 +61,7 @@ type call struct {
 	Cancelled  bool
 	MayCancel  bool
 	Deadline   time.Duration
-	EndedCtx   bool // the call's context had ended by the time it returned
+	EndedCtx   bool          // the call's context had ended by the time it returned
 	TwinOf     *call         // the live submission whose chain this one repeats (lockstep / timed specs)
 	StartAt    time.Duration // fake time of launch
 	RootsKnown bool          // proxy calls: the proxy's distributor has had every opportunity to learn the logs' current roots
@@ -524,7 +524,60 @@ func (w *World) launch(c *call) {
 		c.Groups = groups
 		c.Zero = map[string]bool{}
 		t := w.s.T
-		if t.Chance(1, 2) {
+		if t.Chance(1, 3) {
+			// one weight table for the whole policy, handed to every group (entries for logs outside a group are legal
+			// and ignored): a group either refuses it and keeps its weights, or is left able to reach its minimum
+			table := map[string]float32{}
+			for _, l := range w.logs {
+				if w.inAnyGroup(groups, l.URL) {
+					table[l.URL] = 1
+					if t.Chance(1, 3) {
+						table[l.URL] = 0
+					}
+				}
+			}
+			var names []string
+			for name := range groups {
+				names = append(names, name)
+			}
+			sort.Strings(names)
+			for _, name := range names {
+				g := groups[name]
+				err := g.SetLogWeights(table)
+				pos := 0
+				for u := range g.LogURLs {
+					if g.LogWeights[u] > 0 {
+						pos++
+					}
+				}
+				if pos < g.MinInclusions {
+					w.s.Violate("weights-below-minimum", "SetLogWeights", "group %s (minimum %d) was left with %d logs of positive weight by SetLogWeights(%v) (returned %v)", name, g.MinInclusions, pos, table, err)
+					c.Done, c.Kind = true, "getscts-unsatisfiable"
+					return
+				}
+			}
+			w.s.Probe("weights.shared-table")
+			for u, wt := range table {
+				if wt == 0 {
+					c.Zero[u] = true
+				}
+			}
+			// a weight that could not be zeroed in every group is restored everywhere
+			for u := range c.Zero {
+				for _, g := range groups {
+					if g.LogURLs[u] && g.LogWeights[u] != 0 {
+						delete(c.Zero, u)
+					}
+				}
+			}
+			for _, g := range groups {
+				for u := range g.LogURLs {
+					if !c.Zero[u] && g.LogWeights[u] == 0 {
+						_ = g.SetLogWeight(u, 1)
+					}
+				}
+			}
+		} else if t.Chance(1, 2) {
 			for _, l := range w.logs {
 				if t.Chance(1, 4) {
 					ok := true
